@@ -142,7 +142,7 @@ func (g *graphGen) bind(kind, expr string) string {
 }
 
 func (g *graphGen) block() {
-	switch n := g.r.Intn(23); n {
+	switch n := g.r.Intn(26); n {
 	case 20: // collections at and around the table's growth thresholds
 		sz := []int{7, 8, 9, 12, 13, 14, 25, 26, 27, 52, 53}[g.r.Intn(11)]
 		switch g.r.Intn(3) {
@@ -248,6 +248,21 @@ func (g *graphGen) block() {
 			}
 		} else {
 			g.bind("list", g.leaf2("list"))
+		}
+	case 23, 24, 25: // new values built from a frozen operand and a fresh mutable one
+		if g.o.Host {
+			in := g.leaf()
+			if g.r.Chance(1, 3) {
+				in = g.anon(g.leaf(), 1)
+			}
+			forms := []string{
+				"hf_struct + struct(extra=%s)", "struct(extra=%s) + hf_struct", "hf_struct + struct(a=%s)", "hf_struct.c + struct(e=%s)",
+				"hf_list + [%s]", "[%s] + hf_list", "hf_tuple + (%s,)", "(%s,) + hf_tuple", "hf_dict | {\"k\": %s}", "{\"k\": %s} | hf_dict",
+				"hf_list[1:] + [%s]", "hf_list * 2 + [%s]", "dict(hf_dict, k=%s)", "[hf_list[:], %s]", "sorted(hf_set) + [%s]", "list(hf_tuple) + [%s]",
+			}
+			g.bind("", fmt.Sprintf(forms[g.r.Intn(len(forms))], in))
+		} else {
+			g.bind("", fmt.Sprintf("(%s, %s)", g.ref(), g.leaf()))
 		}
 	case 13: // handed to the host, not stored
 		g.unit("keep(%s, %q)\n", g.leaf(), g.fresh("tmp"))
